@@ -138,23 +138,26 @@ class Srv6SidInformation:
         s: str = 'sid-information [ sid:{} flags:0 endpoint_behavior:0x{:x} '.format(str(self.sid), self.behavior)
         if len(self.subsubtlvs) != 0:
             s += ' [ ' + ', '.join([str(subsubtlv) for subsubtlv in self.subsubtlvs]) + ' ]'
-        s + ' ]'
+        s += ' ]'
         return s
 
     def json(self, compact: bool | None = None) -> str:
         s: str = '{{ "sid": "{}", "flags": 0, "endpoint_behavior": {}'.format(str(self.sid), self.behavior)
         # the sub-sub-TLVs are members of this object.  One we do not know renders as an object of its
         # own ({"type": .., "raw": ..}), which is not a member: they are gathered in a list under one key
-        members: list[str] = []
+        # a sub-sub-TLV we know renders as one member: sent twice (two SID structures) it would be the same
+        # key twice, the first occurrence is reported
+        members: dict[str, str] = {}
         unknown: list[str] = []
         for subsubtlv in self.subsubtlvs:
             if isinstance(subsubtlv, GenericSrv6ServiceDataSubSubTlv):
                 unknown.append(subsubtlv.json())
             else:
-                members.append(subsubtlv.json())
+                member = subsubtlv.json()
+                members.setdefault(member.split(':', 1)[0], member)
         if unknown:
-            members.append('"unknown-sub-sub-tlvs": [ {} ]'.format(', '.join(unknown)))
-        content: str = ', '.join(members)
+            members['"unknown-sub-sub-tlvs"'] = '"unknown-sub-sub-tlvs": [ {} ]'.format(', '.join(unknown))
+        content: str = ', '.join(members.values())
         if content:
             s += ', {}'.format(content)
         s += ' }'
